@@ -2,7 +2,7 @@
 from hypothesis import strategies as st
 
 from vlib import intervals as iv
-from vlib.runner import Violation, sut
+from vlib.runner import Stats, Violation, sut
 
 ID = "C10"
 RULE = (
@@ -86,3 +86,36 @@ def run_case(case):
     if any(s2 - e1 == P and P > 0 for (s1, e1), (s2, e2) in zip(ivs, ivs[1:])):
         classes.append("gap_eq_pulsetime")
     return {"nontrivial": len(evs) >= 3 and short > 0 and long_ > 0, "classes": classes, "evals": 1}
+
+
+# ---------------------------------------------------------------------------
+# exhaustive small scope
+
+EXHAUSTIVE_NOTE = "extra phase 'small_scope': flood on every non-overlapping layout with distinct timestamps of <= N events with integer ms edges in [0, G], every labelling over {a,b}, every pulsetime in {0,1,2,3} ms, given in sorted and in reversed order (quick G=5,N=3; thorough G=7,N=4)"
+
+
+def extra_phases(tier, seed, jobs):
+    g, n = (5, 3) if tier == "quick" else (7, 4)
+    return [("small_scope", "phase_small_scope", [{"i": i, "n": jobs, "grid": g, "max_n": n} for i in range(jobs)])]
+
+
+def phase_small_scope(task):
+    import itertools
+
+    st_ = Stats()
+    lay = iv.all_layouts(task["grid"], task["max_n"], distinct_starts=True)
+    for a in iv.shard(lay, task["i"], task["n"]):
+        for labels in itertools.product("ab", repeat=len(a)):
+            evs = [{"s": s, "d": e - s, "l": l} for (s, e), l in zip(a, labels)]
+            for P in (0, 1, 2, 3):
+                for order in (evs, evs[::-1]):
+                    case = {"events": order, "P_ms": P}
+                    try:
+                        run_case(case)
+                    except Violation as v:
+                        st_.failure = {"kind": "case", "case": case, "message": v.msg}
+                        return st_
+                    st_.evals += 1
+    st_.classes["cases_enumerated"] = st_.evals
+    st_.notes["cases_enumerated"] = st_.evals
+    return st_
